@@ -209,6 +209,189 @@ func init() {
 			rs = append(rs, fmt.Sprintf("(%q, %q)", g, fate))
 		}
 		fmt.Fprintf(b, "/-- what becomes of the error of reading the option's FILE, per getter of cert.Config: propagated (every ReadFile reachable from the getter hands its error to a return), swallowed, no-read -/\ndef c05FileReadFates : List (String × String) := [%s]\n", strings.Join(rs, ", "))
+		// the verdict of AppendCertsFromPEM (false: nothing in the PEM parsed) must end the construction of the
+		// configuration with an error: a semantic fact, the same whether the pool is filled in addCaCertificates itself or
+		// in a function of cert.go it calls (followed three levels; the error of such a function must reach a return of
+		// its caller).  "checked" = the call's result - directly or through the variable it is bound to - is tested
+		// NEGATIVELY by an `if` whose body returns something other than a nil error (or positively with such an else).
+		decl := map[string]*ast.FuncDecl{}
+		for _, d := range f.Decls {
+			if fd, ok := d.(*ast.FuncDecl); ok && fd.Body != nil {
+				decl[fd.Name.Name] = fd
+			}
+		}
+		isAppend := func(e ast.Expr) *ast.CallExpr {
+			for {
+				pe, ok := e.(*ast.ParenExpr)
+				if !ok {
+					break
+				}
+				e = pe.X
+			}
+			if c, ok := e.(*ast.CallExpr); ok {
+				if sel, ok := c.Fun.(*ast.SelectorExpr); ok && sel.Sel.Name == "AppendCertsFromPEM" {
+					return c
+				}
+			}
+			return nil
+		}
+		// the AppendCertsFromPEM call whose verdict expression e stands for (the call itself, or an identifier defined by it)
+		verdictOf := func(e ast.Expr) *ast.CallExpr {
+			if c := isAppend(e); c != nil {
+				return c
+			}
+			for {
+				pe, ok := e.(*ast.ParenExpr)
+				if !ok {
+					break
+				}
+				e = pe.X
+			}
+			if id, ok := e.(*ast.Ident); ok && id.Obj != nil {
+				if as, ok := id.Obj.Decl.(*ast.AssignStmt); ok && len(as.Rhs) == 1 && len(as.Lhs) == 1 {
+					return isAppend(as.Rhs[0])
+				}
+			}
+			return nil
+		}
+		// cond = (call, polarity): polarity false when the condition holds exactly if the verdict is false
+		var condVerdict func(e ast.Expr, neg bool) (*ast.CallExpr, bool)
+		condVerdict = func(e ast.Expr, neg bool) (*ast.CallExpr, bool) {
+			switch x := e.(type) {
+			case *ast.ParenExpr:
+				return condVerdict(x.X, neg)
+			case *ast.UnaryExpr:
+				if x.Op.String() == "!" {
+					return condVerdict(x.X, !neg)
+				}
+			case *ast.BinaryExpr:
+				if op := x.Op.String(); op == "==" || op == "!=" {
+					if lit, ok := x.Y.(*ast.Ident); ok && (lit.Name == "true" || lit.Name == "false") {
+						flip := (lit.Name == "false") != (op == "!=")
+						return condVerdict(x.X, neg != flip)
+					}
+				}
+				return nil, false
+			}
+			return verdictOf(e), !neg
+		}
+		returnsError := func(list []ast.Stmt) bool {
+			found, ok := false, true
+			for _, st := range list {
+				ast.Inspect(st, func(x ast.Node) bool {
+					if _, isLit := x.(*ast.FuncLit); isLit {
+						return false
+					}
+					if rs, isRet := x.(*ast.ReturnStmt); isRet {
+						found = true
+						if len(rs.Results) > 0 {
+							if id, isId := rs.Results[len(rs.Results)-1].(*ast.Ident); isId && id.Name == "nil" {
+								ok = false
+							}
+						}
+					}
+					return true
+				})
+			}
+			return found && ok
+		}
+		var holdsAppend func(fn string, depth int) bool
+		holdsAppend = func(fn string, depth int) bool {
+			fd := decl[fn]
+			if fd == nil || depth > 3 {
+				return false
+			}
+			has := false
+			ast.Inspect(fd.Body, func(x ast.Node) bool {
+				if e, ok := x.(ast.Expr); ok && isAppend(e) != nil {
+					has = true
+				}
+				return !has
+			})
+			for _, c := range calls[fn] {
+				if !has && c != fn && decl[c] != nil {
+					has = holdsAppend(c, depth+1)
+				}
+			}
+			return has
+		}
+		nAppend, verdictOK := 0, true
+		var why []string
+		var visitV func(fn string, depth int, seen map[string]bool)
+		visitV = func(fn string, depth int, seen map[string]bool) {
+			fd := decl[fn]
+			if fd == nil || depth > 3 || seen[fn] {
+				return
+			}
+			seen[fn] = true
+			all := map[*ast.CallExpr]bool{}
+			ast.Inspect(fd.Body, func(x ast.Node) bool {
+				if e, ok := x.(ast.Expr); ok {
+					if c := isAppend(e); c != nil {
+						if _, paren := e.(*ast.ParenExpr); !paren {
+							all[c] = false
+						}
+					}
+				}
+				return true
+			})
+			ast.Inspect(fd.Body, func(x ast.Node) bool {
+				is, ok := x.(*ast.IfStmt)
+				if !ok {
+					return true
+				}
+				c, pol := condVerdict(is.Cond, false)
+				if c == nil {
+					return true
+				}
+				if _, mine := all[c]; !mine {
+					return true
+				}
+				if !pol && returnsError(is.Body.List) {
+					all[c] = true
+				}
+				if eb, isBlock := is.Else.(*ast.BlockStmt); pol && isBlock && returnsError(eb.List) {
+					all[c] = true
+				}
+				return true
+			})
+			for _, good := range all {
+				nAppend++
+				if !good {
+					verdictOK = false
+					why = append(why, fn+": the verdict of an AppendCertsFromPEM call does not guard a return of an error")
+				}
+			}
+			seenCallee := map[string]bool{}
+			for _, c := range calls[fn] {
+				if c == fn || seenCallee[c] || decl[c] == nil || !holdsAppend(c, depth+1) {
+					continue
+				}
+				seenCallee[c] = true
+				n := 0
+				for _, p := range pts {
+					if simple(p.fn) == fn && simple(p.callee) == c {
+						n++
+						if p.fate != "returned" && p.fate != "named-result" {
+							verdictOK = false
+							why = append(why, fn+": the error of "+c+" is "+p.fate)
+						}
+					}
+				}
+				if n == 0 {
+					verdictOK = false
+					why = append(why, fn+": the result of "+c+" is not bound to err")
+				}
+				visitV(c, depth+1, seen)
+			}
+		}
+		visitV("addCaCertificates", 0, map[string]bool{})
+		if nAppend == 0 {
+			verdictOK = false
+			why = append(why, "no AppendCertsFromPEM call reachable from addCaCertificates")
+		}
+		fmt.Fprintf(b, "/-- true iff every AppendCertsFromPEM call reachable from Config.addCaCertificates (itself and the functions of cert.go it calls) has its verdict tested by an `if` that returns an error when it is false, and that error reaches a return of addCaCertificates -/\ndef c05CaPemVerdictChecked : Bool := %v\n", verdictOK)
+		fmt.Fprintf(b, "/-- why not (empty when true) -/\ndef c05CaPemVerdictWhy : List String := %s\n", leanStrList05(why))
 		bs := []string{}
 		for _, p := range blanks {
 			bs = append(bs, fmt.Sprintf("(%q, %q)", p[0], p[1]))
